@@ -58,7 +58,7 @@ def _mk(case):
     info = sec(case['info'], '.debug_info')
     return DWARFInfo(
         config=DwarfConfig(little_endian=case['le'], machine_arch='x64', default_address_size=8),
-        debug_info_sec=None if types else info, debug_aranges_sec=None, debug_abbrev_sec=sec(case['abbrev'], '.debug_abbrev'),
+        debug_info_sec=(sec(case['cuinfo'], '.debug_info') if case.get('cuinfo') else None) if types else info, debug_aranges_sec=None, debug_abbrev_sec=sec(case['abbrev'], '.debug_abbrev'),
         debug_frame_sec=None, eh_frame_sec=None, debug_str_sec=sec(case['str'], '.debug_str'), debug_loc_sec=None,
         debug_ranges_sec=None, debug_line_sec=None, debug_pubtypes_sec=None, debug_pubnames_sec=None,
         debug_addr_sec=sec(case['addr'], '.debug_addr'), debug_str_offsets_sec=sec(case['str_offsets'], '.debug_str_offsets'),
@@ -310,6 +310,23 @@ def _one(case, bad, tags, ats, voc_tag, voc_at):
             got = [d.offset for d in cu.iter_DIEs()]
             if got != offs:
                 bad('dies.offsets.after_' + order, offs, got)
+    # ---- type-signature references from a compile unit (get_DIE_from_attribute through DW_FORM_ref_sig8), before and after the
+    # ---- type units were enumerated
+    if case['mode'] == 'types' and case.get('sigrefs'):
+        for pre in (False, True):
+            di6 = _mk(case)
+            if pre:
+                list(di6.iter_TUs())
+            cu = next(di6.iter_CUs())
+            if [d.offset for d in cu.iter_DIEs()] != [d['off'] for d in case['cu'][0]['dies']]:
+                bad('sigref.cu.dies', [d['off'] for d in case['cu'][0]['dies']], [d.offset for d in cu.iter_DIEs()])
+                continue
+            for r in case['sigrefs']:
+                d = cu.get_DIE_from_refaddr(r['from'])
+                t = d.get_DIE_from_attribute('DW_AT_type')
+                got = [t.offset, getattr(t.cu, 'tu_offset', None)]
+                if got != [r['die'], r['unit']]:
+                    bad('sigref.target', [r['die'], r['unit']], got, t='after_iter' if pre else 'fresh')
     # ---- type units by signature
     if case['mode'] == 'types':
         di4 = _mk(case)
